@@ -131,6 +131,7 @@ type Opts struct {
 	Workers  int           // 0 = GOMAXPROCS
 	Serial   bool          // bodies touch process-global state (SCHED): one worker
 	MaxFails int           // stop after this many failures (default 20)
+	CrashTrace bool        // (with Procs) record the prefix being executed so that a worker process killed by the code under test (fatal panic in a foreign goroutine, runtime throw) is reported as a failure with a replayable prefix
 	Engine   string        // label in the evidence (default "CT"; "SCHED" for scheduler-driven bodies)
 	Procs    int           // >1: shard the tree over this many worker PROCESSES (re-exec of the test binary); needed for Serial bodies
 }
@@ -273,6 +274,9 @@ func exploreFrom(sec *Section, body func(*X), o Opts, initial [][]int, start tim
 					stop = true
 				}
 				if !stop {
+					if cf := crashFile; cf != "" && o.CrashTrace {
+						_ = os.WriteFile(cf, []byte(fmt.Sprint(t.prefix)), 0o644)
+					}
 					x := runBody(sec, body, t.prefix, false)
 					sec.absorb(x)
 					devs := 0
@@ -337,6 +341,9 @@ func expand(x *X, prefixLen int, bound int) [][]int {
 	}
 	return out
 }
+
+// crashFile is set in worker processes: the prefix about to be executed is written there (Opts.CrashTrace).
+var crashFile string
 
 func replaySection() string { return os.Getenv("VERIF_REPLAY_SECTION") }
 
